@@ -93,12 +93,25 @@ def main():
         traceback.print_exc()
         print(f"TOOL-ERROR property={prop}: {type(e).__name__}: {e}", file=sys.stderr)
         return 2
-    known = [k for k in load_known() if k.get("property") == prop and k.get("status") == "known"]
+    allk = load_known()
+    known = [k for k in allk if k.get("property") == prop and k.get("status") == "known"]
+    # a pattern the observers recognise by a key is exempt only while known-findings.jsonl lists that key as
+    # `known` for this property; once it is listed as `fixed` (or not at all) its return is a violation again
+    listed_known = {k.get("key") for k in known}
+    owners = {}
+    for k in allk:
+        if k.get("key"):
+            owners.setdefault(k["key"], set()).add(k["property"])
     viols = []
     exercised = set()
     for r in results:
         viols += r.get("violations", {}).get(prop, [])
         exercised.update(r.get("known", []))
+        for key in r.get("known", []):
+            mine = prop in owners.get(key, {key.split("-")[0]})
+            if mine and key not in listed_known:
+                rps = r.get("known_replays", {}).get(key) or [os.path.join(os.path.dirname(CACHE), "known-findings.jsonl")]
+                viols.append({"b": -1, "event": 0, "kind": f"returned:{key}", "replay": rps[0]})
     for k in known:
         print(f"KNOWN-FINDING: property={prop} {k['what']}"
               + (" [exercised in this run]" if k.get("key") in exercised else ""))
